@@ -791,6 +791,7 @@ func (w *World) buildSchema() *graphql.Schema {
 	sb.Object("KB", KB{})
 	sb.Object("PA", PA{})
 	sb.Object("PB", PB{})
+	w.extendSchema(sb) // rich.go: additive fields (rich unions, snapshot-style reads)
 	return sb.MustBuild()
 }
 
